@@ -46,8 +46,10 @@ theorem cubic_body_cases
     (fl : P → P → List C) (points : List P) (st et : P) (max_error : K) :
     let r := fit_curve_cubic_body recurse cfp gb rp mefc tb neg fl points st et max_error
     (points.length ≤ 2 ∧ r = fl (listGet points 0) (listGet points 1)) ∨
-    (∃ chords, r = [gb points chords st et] ∧ (mefc points chords (gb points chords st et)).t0 ≤ clampTol max_error) ∨
-    (∃ chords ct, let sp := (mefc points chords (gb points chords st et)).t1
+    (2 < points.length ∧ ∃ chords, r = [gb points chords st et] ∧ (mefc points chords (gb points chords st et)).t0 ≤ clampTol max_error) ∨
+    (2 < points.length ∧ ∃ chords ct, let sp := (mefc points chords (gb points chords st et)).t1
+        ¬ (mefc points chords (gb points chords st et)).t0 ≤ clampTol max_error ∧
+        ct = tb (listGet points (sp - 1)) (listGet points sp) (listGet points (sp + 1)) ∧
         r = recurse (listSlice points 0 (sp + 1)) st ct (clampTol max_error) ++
             recurse (listSlice points sp points.length) (ct * (-(1.0 : K))) et (clampTol max_error)) := by
   intro r
@@ -73,19 +75,24 @@ theorem cubic_body_cases
           recurse (listSlice points 0 (s.t3 + 1)) st (tb (listGet points (s.t3 - 1)) (listGet points s.t3) (listGet points (s.t3 + 1))) me ++
           recurse (listSlice points s.t3 points.length)
             (tb (listGet points (s.t3 - 1)) (listGet points s.t3) (listGet points (s.t3 + 1)) * (-(1.0 : K))) et me) = r →
-        (∃ chords, r = [gb points chords st et] ∧ (mefc points chords (gb points chords st et)).t0 ≤ me) ∨
-        (∃ chords ct, r = recurse (listSlice points 0 ((mefc points chords (gb points chords st et)).t1 + 1)) st ct me ++
+        (2 < points.length ∧ ∃ chords, r = [gb points chords st et] ∧ (mefc points chords (gb points chords st et)).t0 ≤ me) ∨
+        (2 < points.length ∧ ∃ chords ct, ¬ (mefc points chords (gb points chords st et)).t0 ≤ me ∧
+          ct = tb (listGet points ((mefc points chords (gb points chords st et)).t1 - 1)) (listGet points (mefc points chords (gb points chords st et)).t1)
+            (listGet points ((mefc points chords (gb points chords st et)).t1 + 1)) ∧
+          r = recurse (listSlice points 0 ((mefc points chords (gb points chords st et)).t1 + 1)) st ct me ++
             recurse (listSlice points (mefc points chords (gb points chords st et)).t1 points.length) (ct * (-(1.0 : K))) et me) := by
       intro s ⟨h1, h2, h3⟩ h
       by_cases hacc : s.t2 ≤ me
       · left
         simp only [hacc, decide_true, if_true] at h
-        exact ⟨s.t0, by rw [← h, h1], by rw [← h1, ← h2]; exact hacc⟩
+        exact ⟨by omega, s.t0, by rw [← h, h1], by rw [← h1, ← h2]; exact hacc⟩
       · right
         simp only [hacc, decide_false, Bool.false_eq_true, if_false] at h
-        refine ⟨s.t0, tb (listGet points (s.t3 - 1)) (listGet points s.t3) (listGet points (s.t3 + 1)), ?_⟩
-        rw [← h1, ← h3]
-        exact h.symm
+        refine ⟨by omega, s.t0, tb (listGet points (s.t3 - 1)) (listGet points s.t3) (listGet points (s.t3 + 1)), ?_, ?_, ?_⟩
+        · rw [← h1, ← h2]; exact hacc
+        · rw [← h1, ← h3]
+        · rw [← h1, ← h3]
+          exact h.symm
     -- the state before the loop
     have hinit : Inv (T4.mk (rp points (cfp points) (gb points (cfp points) st et))
         (gb points (rp points (cfp points) (gb points (cfp points) st et)) st et)
@@ -108,6 +115,78 @@ theorem cubic_body_cases
         · cases hs'
     · exact finish _ hinit hr
 
+/-- the state `(chords, curve, error, split_pos)` on which the body decides between "one curve" and "split": the initial fit and the
+    re-parameterisation loop; it does not involve the self-calls -/
+def bodyState (cfp : List P → List K) (gb : List P → List K → P → P → C)
+    (rp : List P → List K → C → List K) (mefc : List P → List K → C → T2 K Nat) (points : List P) (st et : P) (me : K) :
+    T4 (List K) C K Nat :=
+  let chords0 := rp points (cfp points) (gb points (cfp points) st et)
+  let curve0 := gb points chords0 st et
+  let tup := mefc points chords0 curve0
+  if (decide (tup.t0 > me) && decide (tup.t0 < me * (FIT_ATTEMPT_RATIO : K))) then
+    foldlBrk (List.range' 1 (FIT_MAX_ITERATIONS - 1)) (T4.mk chords0 curve0 tup.t0 tup.t1) (fun st_2 _ =>
+      let chords := rp points st_2.t0 st_2.t1
+      let curve := gb points chords st et
+      let tup_3 := mefc points chords curve
+      if decide (tup_3.t0 ≤ me) then Sum.inr (T4.mk chords curve tup_3.t0 tup_3.t1)
+      else Sum.inl (T4.mk chords curve tup_3.t0 tup_3.t1))
+  else T4.mk chords0 curve0 tup.t0 tup.t1
+
+/-- what the body does with that state: accept the curve, or split at `split_pos` and call itself on the two overlapping slices -/
+def bodyFinish (recurse : List P → P → P → K → List C) (tb : P → P → P → P) (points : List P) (st et : P) (me : K)
+    (s : T4 (List K) C K Nat) : List C :=
+  if decide (s.t2 ≤ me) then [s.t1]
+  else
+    recurse (listSlice points 0 (s.t3 + 1)) st (tb (listGet points (s.t3 - 1)) (listGet points s.t3) (listGet points (s.t3 + 1))) me ++
+    recurse (listSlice points s.t3 points.length)
+      (tb (listGet points (s.t3 - 1)) (listGet points s.t3) (listGet points (s.t3 + 1)) * (-(1.0 : K))) et me
+
+/-- THE GENERATED BODY IS: line for two points, otherwise `bodyFinish` of `bodyState` at the clamped tolerance -/
+theorem body_eq (recurse : List P → P → P → K → List C) (cfp : List P → List K) (gb : List P → List K → P → P → C)
+    (rp : List P → List K → C → List K) (mefc : List P → List K → C → T2 K Nat) (tb : P → P → P → P) (neg : P → P)
+    (fl : P → P → List C) (points : List P) (st et : P) (max_error : K) :
+    fit_curve_cubic_body recurse cfp gb rp mefc tb neg fl points st et max_error =
+      if points.length ≤ 2 then fl (listGet points 0) (listGet points 1)
+      else bodyFinish recurse tb points st et (clampTol max_error) (bodyState cfp gb rp mefc points st et (clampTol max_error)) := by
+  unfold fit_curve_cubic_body bodyState bodyFinish
+  simp only [lit0]
+  have hclamp : (if decide (max_error < 0) = true then (0 : K) else max_error) = clampTol max_error := by
+    simp [clampTol]
+  rw [hclamp]
+  generalize clampTol max_error = me
+  by_cases hlen : points.length ≤ 2
+  · simp only [hlen, decide_true, if_true]
+  · simp only [hlen, decide_false, Bool.false_eq_true, if_false]
+    split <;> rfl
+
+/-- the state is always (parameters, the curve generated from them, the error measured for that curve, the index measured) -/
+theorem bodyState_inv (cfp : List P → List K) (gb : List P → List K → P → P → C)
+    (rp : List P → List K → C → List K) (mefc : List P → List K → C → T2 K Nat) (points : List P) (st et : P) (me : K) :
+    let s := bodyState cfp gb rp mefc points st et me
+    s.t1 = gb points s.t0 st et ∧ s.t2 = (mefc points s.t0 s.t1).t0 ∧ s.t3 = (mefc points s.t0 s.t1).t1 := by
+  intro s
+  let Inv : T4 (List K) C K Nat → Prop := fun s =>
+    s.t1 = gb points s.t0 st et ∧ s.t2 = (mefc points s.t0 s.t1).t0 ∧ s.t3 = (mefc points s.t0 s.t1).t1
+  show Inv s
+  have hs : bodyState cfp gb rp mefc points st et me = s := rfl
+  clear_value s
+  unfold bodyState at hs
+  simp only at hs
+  split at hs
+  · rw [← hs]
+    apply foldlBrk_invariant Inv _ _ _ _ ⟨rfl, rfl, rfl⟩
+    intro s x _
+    constructor
+    · intro s' hs'
+      split at hs'
+      · cases hs'
+      · cases hs'; exact ⟨rfl, rfl, rfl⟩
+    · intro s' hs'
+      split at hs'
+      · cases hs'; exact ⟨rfl, rfl, rfl⟩
+      · cases hs'
+  · rw [← hs]; exact ⟨rfl, rfl, rfl⟩
+
 /-- THE ERROR BOUND OF WHAT IS RETURNED: instantiate `max_error_for_curve` by its translated pieces - for curves given as their
     four control points, `max_error_for_curve points chords c = max_error_pick (zipWith fit_point_error …)`.  If the body returns a
     single curve (case 2 above), every sample is within the clamped tolerance of that curve's point at the sample's parameter. -/
@@ -127,7 +206,7 @@ theorem returned_curve_within_error
     (fun pts chords c => max_error_pick ((pts.zip chords).map (fun s => fit_point_error c.t0 c.t1 c.t2 c.t3 s.1 s.2)))
     tb neg fl points st et max_error
   simp only at h
-  rcases h with ⟨h2, _⟩ | ⟨chords, hr, hacc⟩ | ⟨chords, ct, hr⟩
+  rcases h with ⟨h2, _⟩ | ⟨_, chords, hr, hacc⟩ | ⟨_, chords, ct, _, _, hr⟩
   · omega
   · rw [hone] at hr
     have hc : c = gb points chords st et := by simpa using hr
